@@ -153,7 +153,7 @@ def check_instance(mode_name, seq, fs, res):
     if path and 'B' in fs:
         k = 0
         for P, w in seen.items():
-            if not w or k >= 3:
+            if not w or k >= (16 if 'Z' in fs else 3):
                 continue
             t = alphabet.to_text(w, al)
             if '\n' in t or str(WP.PurePosixPath(t)) != t:
@@ -242,7 +242,7 @@ def menus():
 
 
 FN_FLAGSETS = ['E', '', 'DE']
-GL_FLAGSETS = ['E', 'GE', 'GDE', 'GZE', 'GXE', 'BGE', 'GDZE', 'XE', 'BE', 'LE', '', 'G', 'GXDE', 'BGDE']
+GL_FLAGSETS = ['E', 'GE', 'GDE', 'GZE', 'GXE', 'BGE', 'GDZE', 'XE', 'BE', 'LE', '', 'G', 'GXDE', 'BGDE', 'BGZE', 'BGDZE']
 
 
 def plan(tier, seed):
@@ -257,6 +257,11 @@ def plan(tier, seed):
         layers.append({'mode': mode_name, 'budgets': list(budgets), 'flagsets': list(flagsets), 'nesting': depth,
                        'max_alts': max_alts, 'exhaustive': residue is None, 'residue': residue})
 
+    # two segments, a group with a written dot in one and a group / wildcard in the other (state carried across `/`)
+    for sh in range(8):
+        chunks.append(('aut', 'glob-pairs', 3, ('GDE', 'DE'), 1, 2, sh, 8, None))
+    layers.append({'mode': 'glob', 'shape': '<segment with a group holding a written dot>/<!(b) | * | ?(a)* | @(*|.)> and reversed',
+                   'flagsets': ['GDE', 'DE'], 'exhaustive': True})
     if tier == 'quick':
         add('fn', [1, 2, 3], FN_FLAGSETS, 2, 2)
         add('fn-nested', [4], ['E'], 2, 2)
@@ -284,9 +289,43 @@ def plan(tier, seed):
     }
 
 
+PAIR_SECOND = ['!(a)', '*', '@(*|.)']
+
+
+def _pairs(res, sh, ns, flagsets):
+    inner, top = menus()
+    L = pat.lit
+    seconds = []
+    for txt in PAIR_SECOND:
+        found = [seq for b in (1, 2, 3) for seq in pat.gen(b, inner, ext=True, depth=1, max_alts=2) if pat.render(seq) == txt]
+        if not found:
+            raise run.HarnessError('C03 pairs: %r not generated' % txt)
+        seconds.append(found[0])
+    k = 0
+    firsts = [seq for seq in pat.gen(3, inner, ext=True, depth=1, max_alts=2)
+              if any(nd[0] == 'ext' and any(a and a[0] == L('.') for a in nd[2]) for nd in seq)]
+    # plus the groups of one more token that stand alone in their segment: @(.a), !(.a), +(.a|b), ?(.a) ...
+    firsts += [seq for seq in pat.gen(4, inner, ext=True, depth=1, max_alts=2)
+               if len(seq) == 1 and seq[0][0] == 'ext' and any(a and a[0] == L('.') for a in seq[0][2])]
+    for seq in firsts:
+        for s2 in seconds:
+            for both in ((seq, s2), (s2, seq)):
+                k += 1
+                if k % ns != sh:
+                    continue
+                full = tuple(both[0]) + (('sep', 1, False),) + tuple(both[1])
+                for fs in flagsets:
+                    check_instance('glob', full, fs, res)
+    res.samples.append({'mode': 'glob', 'pattern': '!(.a)/!(b)', 'flagsets': list(flagsets)})
+    impl.clear()
+    return res
+
+
 def run_chunk(chunk):
     _k, mode_name, budget, flagsets, depth, max_alts, sh, ns, residue = chunk
     res = run.ChunkResult()
+    if mode_name == 'glob-pairs':
+        return _pairs(res, sh, ns, flagsets)
     inner, top = menus()
     lv = top if mode_name == 'glob' else inner
     k = 0
